@@ -572,11 +572,17 @@ func (cx *Ctx) checkRedirectOctetsShape(r *Report) {
 	n, withRS, withoutRS := 0, 0, 0
 	// every string that is turned into the octets to verify (Sprintf, concatenation or a Builder alike)
 	var cands []ssa.Instruction
-	for _, b := range vr.Blocks {
-		for _, in := range b.Instrs {
-			if cv, ok := in.(*ssa.Convert); ok && isStringType(cv.X.Type()) {
-				if _, isSl := cv.Type().Underlying().(*types.Slice); isSl {
-					cands = append(cands, cv)
+	// (in the function itself or in a helper it calls: the construction may have been extracted)
+	for _, g := range w.sortedFuncs(lvf.scope) {
+		if g.Pkg != vr.Pkg {
+			continue
+		}
+		for _, b := range g.Blocks {
+			for _, in := range b.Instrs {
+				if cv, ok := in.(*ssa.Convert); ok && isStringType(cv.X.Type()) {
+					if _, isSl := cv.Type().Underlying().(*types.Slice); isSl {
+						cands = append(cands, cv)
+					}
 				}
 			}
 		}
